@@ -549,6 +549,7 @@ func callSSA(i *interpreter, caller *frame, callpos token.Pos, fn *ssa.Function,
 			X.inReplace[fn] = true
 			defer func() { X.inReplace[fn] = false }()
 			X.Events = append(X.Events, "replaced:"+fn.String())
+			X.Replaced[fn.String()] = true
 			return call(i, caller, callpos, repl, args)
 		}
 	}
@@ -558,10 +559,16 @@ func callSSA(i *interpreter, caller *frame, callpos token.Pos, fn *ssa.Function,
 	if fn.Parent() == nil {
 		name := fn.String()
 		if ext := symExternals[name]; ext != nil {
+			if X != nil && !strings.HasPrefix(name, rtPkg) {
+				X.StubHits[name]++
+			}
 			return ext(fr, args)
 		}
 		for pre, ext := range symExternalPrefixes {
 			if strings.HasPrefix(name, pre) {
+				if X != nil {
+					X.StubHits[pre+"...]"]++
+				}
 				return ext(fr, args)
 			}
 		}
@@ -579,6 +586,9 @@ func callSSA(i *interpreter, caller *frame, callpos token.Pos, fn *ssa.Function,
 		}
 	}
 
+	if X != nil {
+		X.FuncCalls[fn.String()]++
+	}
 	// generic function body?
 	if fn.TypeParams().Len() > 0 && len(fn.TypeArgs()) == 0 {
 		panic("interp requires ssa.BuilderMode to include InstantiateGenerics to execute generics")
